@@ -3,7 +3,7 @@
     its name and the range of its declaring identifier -- nothing foreign, nothing twice, nothing out of order; hence they
     are ALL of them whenever the counts agree (a per-program condition the check evaluates). *)
 From Coq Require Import List NArith Bool Lia.
-From TG.Model Require Import Chars CoreAst SymbolMap Outline OutlineIndex.
+From TG.Model Require Import Chars CoreAst SymbolMap Outline OutlineIndex OutlineSpec.
 From TG.Proofs Require Import OutlineProofs SymbolMapBasics SymbolOps OutlineIndexProofs.
 Import ListNotations.
 Open Scope N_scope.
@@ -35,47 +35,6 @@ Proof.
   - f_equal. apply IH. lia.
   - apply subseq_length in H. lia.
 Qed.
-
-(** ---- declarations: what an op registers as a global outline symbol, and what a statement declares ---- *)
-Inductive dkind := DClass | DDef | DDefset | DMulticlass.
-Definition decl : Type := (dkind * SymbolMap.name * N * N)%type.      (* kind, name, identifier range *)
-
-Definition op_decl (o : op) : list decl :=
-  match o with
-  | OpAddRecord n RKClass loc true _ => [(DClass, n, fr_lo loc, fr_hi loc)]
-  | OpAddRecord n RKDef loc true _ => [(DDef, n, fr_lo loc, fr_hi loc)]
-  | OpAddDefset n _ loc _ => [(DDefset, n, fr_lo loc, fr_hi loc)]
-  | OpAddMulticlass n loc _ => [(DMulticlass, n, fr_lo loc, fr_hi loc)]
-  | _ => []
-  end.
-Definition ops_decls (ops : list op) : list decl := flat_map op_decl ops.
-
-(** the declarations of a statement in source preorder; [in_dset]: lexically inside a defset *)
-Fixpoint stmt_decls (in_dset : bool) (x : stmt) : list decl :=
-  let many := fun (d : bool) (b : list stmt) => flat_map (stmt_decls d) b in
-  match x with
-  | SClass i _ _ _ => [(DClass, i_name i, r_lo (i_rng i), r_hi (i_rng i))]
-  | SDef (Some v) _ _ _ =>
-      match value_first_ident v with
-      | Some i => if in_dset then [] else [(DDef, i_name i, r_lo (i_rng i), r_hi (i_rng i))]
-      | None => []
-      end
-  | SDef None _ _ _ => []
-  | SDefset _ i b => (DDefset, i_name i, r_lo (i_rng i), r_hi (i_rng i)) :: many true b
-  | SMulticlass i _ _ b => (DMulticlass, i_name i, r_lo (i_rng i), r_hi (i_rng i)) :: many in_dset b
-  | SForeach _ _ b | SLet _ b => many in_dset b
-  | SIf _ th el => many in_dset th ++ match el with Some e => many in_dset e | None => [] end
-  | SInclude _ _ | SAssert _ _ | SDefm _ _ _ | SDefvar _ _ | SDump _ => []
-  end.
-
-Fixpoint no_include (x : stmt) : bool :=
-  let all := fun (b : list stmt) => forallb no_include b in
-  match x with
-  | SInclude _ _ => false
-  | SDefset _ _ b | SForeach _ _ b | SLet _ b | SMulticlass _ _ _ b => all b
-  | SIf _ th el => all th && match el with Some e => all e | None => true end
-  | _ => true
-  end.
 
 (** ---- the emitted declarations of a state ---- *)
 Definition E (s : ostate) : list decl := ops_decls (rev (oi_ops s)).
@@ -436,8 +395,6 @@ Proof.
 Qed.
 
 (** ---- the theorem: for every single-file program without include statements ---- *)
-Definition program_decls (root : list stmt) : list decl := flat_map (stmt_decls false) root.
-
 Theorem outline_source_subseq : forall root perrs,
   forallb no_include root = true ->
   subseq (ops_decls (oix_ops (mkWs [root] perrs))) (program_decls root).
